@@ -1,4 +1,11 @@
-"""E1: runs the S2 introspection child against the repo under analysis and returns its facts."""
+"""E1: runs the S2 introspection child against the repo under analysis and returns its facts.
+
+Note: importing sqlglot executes import-time code only, but that includes the dialect
+generators' module-level SQL templates (`exp.maybe_parse("...")`), i.e. the parser runs on a
+handful of fixed strings of the repository itself. No input of ours is ever parsed. A tree
+whose parser hangs or crashes on its own templates makes S2 unavailable: that is reported as
+an analysis error (exit 2) unless a rule that does not need S2 already found a violation.
+"""
 
 from __future__ import annotations
 
@@ -12,12 +19,15 @@ from .core import AnalysisError, PYTHON, Repo
 
 _CHILD = Path(__file__).resolve().parent / "introspect_child.py"
 _cache: dict[str, dict] = {}
+_failed: dict[str, str] = {}
 
 
 def facts(repo: Repo) -> dict:
     key = repo.digest
     if key in _cache:
         return _cache[key]
+    if key in _failed:
+        raise AnalysisError(_failed[key])
     fd, out = tempfile.mkstemp(prefix="verif_facts_", suffix=".json")
     os.close(fd)
     try:
@@ -25,17 +35,16 @@ def facts(repo: Repo) -> dict:
         env["PYTHONPATH"] = str(repo.root)
         env["PYTHONDONTWRITEBYTECODE"] = "1"
         env.pop("PYTHONHASHSEED", None)
-        p = subprocess.run(
-            [PYTHON, "-S" if False else "-B", str(_CHILD), out],
-            env=env,
-            cwd="/",
-            capture_output=True,
-            text=True,
-            timeout=300,
-        )
+        timeout = int(os.environ.get("VERIF_S2_TIMEOUT", "120"))
+        try:
+            p = subprocess.run([PYTHON, "-B", str(_CHILD), out], env=env, cwd="/", capture_output=True, text=True, timeout=timeout)
+        except subprocess.TimeoutExpired:
+            _failed[key] = f"import introspection (S2) did not finish within {timeout}s: importing the package under analysis hangs"
+            raise AnalysisError(_failed[key]) from None
         if p.returncode != 0:
             tail = (p.stderr or p.stdout).strip().splitlines()[-6:]
-            raise AnalysisError("import introspection (S2) failed: " + " | ".join(tail))
+            _failed[key] = "import introspection (S2) failed: " + " | ".join(tail)
+            raise AnalysisError(_failed[key])
         data = json.loads(Path(out).read_text())
     finally:
         try:
@@ -43,7 +52,11 @@ def facts(repo: Repo) -> dict:
         except OSError:
             pass
     if data.get("failed_modules"):
-        raise AnalysisError(f"S2: modules failed to import: {data['failed_modules']}")
-    # sanity: the child must have imported the tree under analysis, not another copy
+        _failed[key] = f"S2: modules failed to import: {data['failed_modules']}"
+        raise AnalysisError(_failed[key])
+    src = str(Path(data.get("sqlglot_file", "")).resolve())
+    if not src.startswith(str(repo.root)):
+        _failed[key] = f"S2 imported sqlglot from {src}, not from the tree under analysis {repo.root}"
+        raise AnalysisError(_failed[key])
     _cache[key] = data
     return data
